@@ -98,7 +98,7 @@ class Exec:
                 out += self.call_function(fn, c, [o], {}, s1, d + 1)
             else:
                 v = s1.read(o, e.attr)
-                s1.assume_alloc(v)
+                s1.assume_alloc(v, s1.farr(o.ty[1], e.attr)[1])
                 out.append((s1, v))
         return out
 
@@ -285,11 +285,25 @@ class Exec:
         nl, nr = st.length(l.term, ety), st.length(r.term, ety)
         st.set_len(res.term, nl + nr, ety)
         i = z3.Int(fresh_name("i_cat"))
+        rty = r.ty[1]
+        if kind_name(rty) != kind_name(ety):
+            if not (strip_opt(ety)[0] in ("real", "int") and strip_opt(rty)[0] in ("int", "bool", "real")) or rty[0] == "opt":
+                raise Unsupported(f"concatenation of {l.ty} and {r.ty}")
+            nr = st.length(r.term, rty)
+            st.set_len(res.term, nl + nr, ety)
         for part in (("val", "none") if ety[0] == "opt" else ("val",)):
-            el, er = st.elems(l.term, ety, part), st.elems(r.term, ety, part)
+            el = st.elems(l.term, ety, part)
             new = z3.FreshConst(el.sort(), "cat_el")
             st.assume(z3.ForAll([i], z3.Implies(z3.And(0 <= i, i < nl), z3.Select(new, i) == z3.Select(el, i))))
-            st.assume(z3.ForAll([i], z3.Implies(z3.And(0 <= i, i < nr), z3.Select(new, i + nl) == z3.Select(er, i))))
+            if kind_name(rty) == kind_name(ety):
+                er = st.elems(r.term, ety, part)
+                st.assume(z3.ForAll([i], z3.Implies(z3.And(nl <= i, i < nl + nr), z3.Select(new, i) == z3.Select(er, i - nl))))
+            elif part == "val":
+                er = st.elems(r.term, rty)
+                conv = coerce(V(strip_opt(rty), z3.Select(er, i - nl)), strip_opt(ety))
+                st.assume(z3.ForAll([i], z3.Implies(z3.And(nl <= i, i < nl + nr), z3.Select(new, i) == conv)))
+            else:
+                st.assume(z3.ForAll([i], z3.Implies(z3.And(nl <= i, i < nl + nr), z3.Not(z3.Select(new, i)))))
             st.set_elems(res.term, ety, new, part)
         if strip_opt(ety)[0] == "ref":
             y = z3.Const(fresh_name("y_cat"), REF)
